@@ -6,6 +6,7 @@
 //!   ops  ho hb hr ha hf hx hg   HTTP: open (head + body minus one byte) / last body byte / let the handler go /
 //!                               reset / FIN-close / let go and reset at once / complete GET
 //!        hu (4th field k) burst of k opens on k streams, answer = b<number of 429s>, then all reset
+//!        w0  WebSocket handshake sent as HTTP/1.0 (accepted, then hyper's upgrade fails); same expected behaviour as `we`
 //!        wo wb we wc wr wl wa wf wg wx   WebSocket: open / bad handshake / reset right after the service call /
 //!                               call parked method / let calls go / close frame / reset / FIN-close / invalid frame /
 //!                               close frame and reset at once
@@ -611,6 +612,23 @@ impl Case {
 				}
 				let sh2 = sh.clone();
 				let seen = poll_until(|| sh2.calls.load(SeqCst) > calls0, wait).await;
+				drop(s);
+				if seen { none } else { timeout }
+			}
+			// a WebSocket handshake sent as HTTP/1.0: the handshake itself is accepted (a slot is taken, the upgrade task is
+			// spawned) but hyper attaches no upgrade to an HTTP/1.0 request, so `hyper::upgrade::on` fails deterministically;
+			// the client keeps the socket open until the server hangs up
+			"w0" => {
+				let Some(mut s) = self.connect().await else { return timeout };
+				let calls0 = sh.calls.load(SeqCst);
+				let req = String::from_utf8(upgrade_req("13")).unwrap().replacen("HTTP/1.1", "HTTP/1.0", 1);
+				if s.write_all(req.as_bytes()).await.is_err() {
+					return timeout;
+				}
+				let sh2 = sh.clone();
+				let seen = poll_until(|| sh2.calls.load(SeqCst) > calls0, wait).await;
+				let mut buf = Vec::new();
+				let _ = wait_head_or(&mut s, &mut buf, || false, Duration::from_millis(300)).await;
 				drop(s);
 				if seen { none } else { timeout }
 			}
